@@ -68,11 +68,17 @@ fn main() {
             let flags = SyncFlags { delete: tk[2] == "1", exclude: vec![], min_size: None, max_size: None };
             let mut st = ResumeState::new(PathBuf::from("/s"), PathBuf::from(&dir), flags, 10);
             if tk[3] != "-" {
+                // what an interrupted run records for a file it completed: the size and xxhash3 of what it transferred,
+                // read here from the copy that is in the destination
+                let verifier = sy::integrity::IntegrityVerifier::new(sy::integrity::ChecksumType::Fast, false);
                 for h in tk[3].split(',') {
                     let rel = String::from_utf8(unhex(h)).unwrap();
+                    let full = Path::new(&dir).join(&rel);
+                    let size = std::fs::metadata(&full).map(|m| m.len()).unwrap_or(1);
+                    let sum = verifier.compute_file_checksum(&full).map(|c| c.to_hex()).unwrap_or_else(|_| "0".into());
                     st.add_completed_file(
-                        CompletedFile { relative_path: PathBuf::from(rel), action: "create".into(), size: 1, checksum: "xxhash3:0".into(), completed_at: "2020-01-01T00:00:00+00:00".into() },
-                        1,
+                        CompletedFile { relative_path: PathBuf::from(rel), action: "create".into(), size, checksum: format!("xxhash3:{}", sum), completed_at: "2020-01-01T00:00:00+00:00".into() },
+                        size,
                     );
                 }
             }
